@@ -248,6 +248,31 @@ def run_case(case):
                 exp = 2 * pinball(y, f, q).mean()
                 if abs(sc - exp) > 1e-12 * max(1.0, abs(exp)):
                     bad("score != 2 * mean pinball loss", cond, "score %r expected %r %s" % (sc, exp, desc))
+    # sign and location of the features: the same design mirrored (every value negative), centred (mixed signs) and shifted far
+    # to the right, with and without positive=True, against the exact LP optimum over the same class
+    for ys in case["ys"][:2]:
+        y = numpy.array(ys, dtype=numpy.float64) + numpy.array(JIT[:n])
+        for vname, Xv in (("all features negative", -X - 1.0), ("features centred", X - X.mean(axis=0)), ("features shifted by +50", X + 50.0),
+                          ("first feature negative, others positive", X * numpy.array([-1.0] + [1.0] * (d - 1)) - numpy.array([1.0] + [0.0] * (d - 1)))):
+            for q, positive, fi in ((0.25, True, True), (0.75, True, True), (0.5, False, True), (0.25, True, False)):
+                cnt += 1
+                cond = "%s,no weights,fit_intercept=%s,positive=%s,sign of the features" % ("q=0.5" if q == 0.5 else "q!=0.5", fi, positive)
+                desc = "d=%d X=%r y=%r (%s) q=%s positive=%s fit_intercept=%s" % (d, Xv.tolist(), ys, vname, q, positive, fi)
+                try:
+                    m = QuantileLinearRegression(quantile=q, max_iter=1000, delta=1e-4, positive=positive, fit_intercept=fi).fit(Xv, y)
+                    f = numpy.asarray(m.predict(Xv))
+                except Exception as e:
+                    bad("fit raises %s" % type(e).__name__, cond, "%s %s" % (str(e)[:200], desc))
+                    continue
+                coef = numpy.asarray(m.coef_, dtype=float).ravel()
+                if positive and (coef < -1e-12).any():
+                    bad("positive=True gives a negative coefficient", cond, "%r %s" % (coef.tolist(), desc))
+                Xm = numpy.hstack([Xv, numpy.ones((n, 1))]) if fi else Xv
+                L = pinball(y, f, q).sum()
+                Ls = lp_optimum(Xm, y, q, None, list(range(Xm.shape[1])) if positive else [])
+                tol = n * 1e-4 * 4 * max(1.0, float(numpy.abs(Xv).max()) / 5.0)
+                if Ls is not None and L > Ls + tol:
+                    bad("not a pinball-loss minimiser", cond, "loss %r optimum %r (tol %g) %s" % (L, Ls, tol, desc))
     # the same training set / scoring set stored behind other memory layouts and dtypes: same optimality, same score identity
     from checks.catalog import layouts
     pair = {"Fortran order": "column of a C-ordered table", "strided window of a larger table": "every second element",
